@@ -239,14 +239,14 @@ def h_project_grid(ctx):
         if not ctx.sym:
             vmask.Delaunay = RealDelaunay
     if cfg.get("region_arg"):
-        ctx.claim("result is a DataArray with the input's name on the requested region with the requested (or the input's) shape", And(isinstance(out, xr.DataArray), out.name == name, tuple(out.dims) == dims, out.shape == out_sh))
+        ctx.claim("result is a DataArray with the input's name on the requested region with the requested (or the input's) shape", And(isinstance(out, xr.DataArray), out.name == (name if name is not None else "scalars"), tuple(out.dims) == dims, out.shape == out_sh))
         if out.shape == out_sh:
             for j in range(out_sh[1]):
                 ctx.claim("easting nodes: regular grid of the requested region", eq(out.coords["easting"].values[j] * max(out_sh[1] - 1, 1), rw * max(out_sh[1] - 1, 1) + j * (re_ - rw)))
             for i in range(out_sh[0]):
                 ctx.claim("northing nodes: regular grid of the requested region", eq(out.coords["northing"].values[i] * max(out_sh[0] - 1, 1), rs * max(out_sh[0] - 1, 1) + i * (rn - rs)))
         return
-    ctx.claim("result is a DataArray with the input's name, dims and shape", And(isinstance(out, xr.DataArray), out.name == name, tuple(out.dims) == dims, out.shape == sh))
+    ctx.claim("result is a DataArray with the input's name ('scalars' if unnamed), dims and shape", And(isinstance(out, xr.DataArray), out.name == (name if name is not None else "scalars"), tuple(out.dims) == dims, out.shape == sh))
     if out.shape != sh:
         return
     for j in range(sh[1]):
@@ -499,7 +499,7 @@ def _cfg_pg(tier, seed):
     q = [{"shape": (2, 2), "proj": ("2", "3")}, {"shape": (2, 3), "proj": ("1/2", "5"), "oracle_free": 2}, {"shape": (2, 3), "proj": ("3", "2"), "oracle_free": 1, "transposed": True}, {"shape": (2, 3), "proj": ("2", "3"), "oracle_free": 0, "region_arg": True}, {"shape": (2, 2), "proj": ("2", "3"), "oracle_free": 0, "region_arg": True, "shape_arg": (3, 2)}]
     if tier == "quick":
         return q
-    return q + [{"shape": (2, 3), "proj": ("1/2", "5"), "name": None}, {"shape": (2, 3), "proj": ("2", "3"), "hole": (0, 1)}, {"shape": (3, 3), "proj": ("7", "1/3"), "oracle_free": 2}]
+    return q + [{"shape": (2, 3), "proj": ("1/2", "5"), "name": None, "oracle_free": 2}, {"shape": (2, 3), "proj": ("2", "3"), "hole": (0, 1), "oracle_free": 3}, {"shape": (3, 3), "proj": ("7", "1/3"), "oracle_free": 2}]
 
 
 HARNESSES = [
